@@ -23,7 +23,9 @@ def set_current(p):
 class Z3Tr:
     """Sym / SymBool -> z3 (reals).  Collects definitional constraints of the symbols used."""
 
-    def __init__(self, abstract=False):
+    def __init__(self, abstract=False, linearize=False):
+        self.linearize = linearize   # every nonlinear monomial becomes one fresh real: an LRA abstraction (sound for proving)
+        self.mono_vars = {}
         self.vars = {}
         self.defs_done = set()
         self.side = []          # definitional constraints (always true)
@@ -41,7 +43,12 @@ class Z3Tr:
 
     def _define(self, sid, info, v):
         if info.kind == "root":
-            self.side.append(z3.And(v * v == info.data, v > 0))
+            if self.linearize:
+                import math
+                lo = int(math.isqrt(info.data * 10 ** 12))
+                self.side.append(z3.And(v * (10 ** 6) >= lo, v * (10 ** 6) <= lo + 1))
+            else:
+                self.side.append(z3.And(v * v == info.data, v > 0))
         elif info.kind == "i":
             raise Unsupported("imaginary unit inside a real-valued solver term")
         elif info.kind.startswith("def:"):
@@ -51,8 +58,11 @@ class Z3Tr:
                 c, a, b = d
                 self.side.append(v == z3.If(self.bool(c), self.sym(a), self.sym(b)))
             elif kind == "sqrt":
-                p = self.sym(d)
-                self.side.append(z3.And(v * v == p, v >= 0))
+                if self.linearize:
+                    self.side.append(v >= 0)
+                else:
+                    p = self.sym(d)
+                    self.side.append(z3.And(v * v == p, v >= 0))
             elif kind == "const":
                 self.side.append(v == z3.RealVal(repr(d)) if isinstance(d, (int, float)) else v == v)
             else:
@@ -100,7 +110,28 @@ class Z3Tr:
                     terms.append(z3.RealVal(str(const)))
         return terms[0] if len(terms) == 1 else z3.Sum(terms)
 
+    def _poly_linear(self, p):
+        terms = []
+        for m, c in p.items():
+            cv = z3.RealVal(str(c))
+            if not m:
+                terms.append(cv)
+                continue
+            if len(m) == 1 and m[0][1] == 1:
+                t = self.var(m[0][0])
+            else:
+                t = self.mono_vars.get(m)
+                if t is None:
+                    t = z3.Real(f"mono!{len(self.mono_vars)}")
+                    self.mono_vars[m] = t
+                    for sid, _ in m:
+                        self.var(sid)          # pull in definitions of the symbols involved
+            terms.append(t if c == 1 else cv * t)
+        return terms[0] if len(terms) == 1 else z3.Sum(terms)
+
     def _poly_exact(self, p):
+        if self.linearize:
+            return self._poly_linear(p)
         terms = []
         for m, c in p.items():
             t = None
@@ -154,7 +185,7 @@ class SymPaths:
         self.tr = Z3Tr()
         self.requires = list(requires)            # SymBool / bool
         base = [self.tr.bool(r) for r in self.requires]
-        self.pm = PathManager(base, max_paths=max_paths)
+        self.pm = PathManager(base, max_paths=max_paths, feas_timeout_ms=1500)
         self.side_conditions = []                 # denominators assumed non-zero
         self._n_side = 0
         self.decisions_log = []
@@ -173,6 +204,16 @@ class SymPaths:
         self.eigh_calls = []
         self._sign_cache = {}
         self._ent_cache = {}
+        self.lin_tr = Z3Tr(linearize=True)
+        self.lin = z3.Solver()
+        self.lin.set("timeout", 1000)
+        self._n_lin_side = 0
+        for r in self.requires:
+            if r is not True:
+                try:
+                    self.lin.add(self.lin_tr.bool(r))
+                except Unsupported:
+                    pass
         self._sync_side()
 
     def _sync_side(self):
@@ -183,10 +224,21 @@ class SymPaths:
     def decide(self, b):
         if isinstance(b, bool):
             return b
+        r = self._syntactic(b)       # implied by the bounds in requires / earlier decisions: no fork, no solver
+        if r is None:
+            r = self._lin_entailed(b)
+        if r is not None:
+            return r
         z = self.tr.bool(b)
         self._sync_side()
+        import os, time as _t
+        _t0 = _t.time()
         d = self.pm.branch(z)
+        if os.environ.get("QVERIF_TRACE") and _t.time() - _t0 > 0.3:
+            print("SLOW DECIDE", round(_t.time() - _t0, 2), repr(b)[:600], flush=True)
         self.decisions_log.append((b, d))
+        self._lin_add(b if d else SC.bnot(b))
+        self._bounds_at = None
         return d
 
     def assume(self, b):
@@ -195,6 +247,36 @@ class SymPaths:
         z = self.tr.bool(b)
         self._sync_side()
         self.pm.assume(z)
+        self._lin_add(b)
+
+    def _lin_add(self, b):
+        try:
+            self.lin.add(self.lin_tr.bool(b))
+        except Unsupported:
+            pass
+
+    def _lin_entailed(self, b):
+        """decide b in the LRA abstraction (nonlinear monomials as fresh reals): sound, fast, deterministic"""
+        try:
+            z = self.lin_tr.bool(b)
+        except Unsupported:
+            return None
+        while self._n_lin_side < len(self.lin_tr.side):
+            self.lin.add(self.lin_tr.side[self._n_lin_side])
+            self._n_lin_side += 1
+        self.lin.push()
+        self.lin.add(z3.Not(z))
+        r = self.lin.check()
+        self.lin.pop()
+        if r == z3.unsat:
+            return True
+        self.lin.push()
+        self.lin.add(z)
+        r = self.lin.check()
+        self.lin.pop()
+        if r == z3.unsat:
+            return False
+        return None
 
     def assume_library(self, b, label):
         if b is True:
@@ -214,16 +296,8 @@ class SymPaths:
         if key in cache:
             return cache[key]
         out = self._syntactic(b)
-        if out is None and self._is_linear_bool(b) and (self._hyp_syms() & self._syms_of_bool(b)):
-            try:
-                z = self.tr.bool(b)
-            except Unsupported:
-                return None
-            self._sync_side()
-            if self._cheap_unsat(z3.Not(z)):
-                out = True
-            elif self._cheap_unsat(z):
-                out = False
+        if out is None and (self._hyp_syms() & self._syms_of_bool(b)):
+            out = self._lin_entailed(b)
         cache[key] = out
         return out
 
@@ -430,12 +504,11 @@ class SymPaths:
             out = 1
         elif self._syntactic(SC.compare("<", x)) is True:
             out = -1
-        elif self._is_linear_bool(SC.compare("<", x)):
-            z = self.tr.sym(x)
-            self._sync_side()
-            if self._cheap_unsat(z <= 0):
+        else:
+            r = self._lin_entailed(SC.compare("<", -x))
+            if r is True:
                 out = 1
-            elif self._cheap_unsat(z >= 0):
+            elif self._lin_entailed(SC.compare("<", x)) is True:
                 out = -1
         cache[key] = out
         return out
